@@ -58,9 +58,16 @@ fn show<'a, I: Iterator<Item = (String, String)>>(it: I) -> String {
 }
 
 fn via_macro<'a>(ps: &'a [(String, Tok)]) -> Option<FluentArgs<'a>> {
-    let k = |i: usize| ps[i].0.as_str();
-    let v = |i: usize| tok_value(&ps[i].1);
-    Some(match ps.len() {
+    // key and value expressions with a side effect (each pulls the next item of an iterator): an expansion that
+    // evaluates an expression twice, or not at all, shifts every later pair
+    let ki = std::cell::RefCell::new(ps.iter().map(|p| p.0.as_str()));
+    let vi = std::cell::RefCell::new(ps.iter().map(|p| &p.1));
+    let k = |_: usize| ki.borrow_mut().next().unwrap_or("<key expression evaluated again>");
+    let v = |_: usize| match vi.borrow_mut().next() {
+        Some(t) => tok_value(t),
+        None => FluentValue::from("<value expression evaluated again>"),
+    };
+    let a = match ps.len() {
         0 => fluent_args![],
         1 => fluent_args![k(0) => v(0)],
         2 => {
@@ -72,7 +79,12 @@ fn via_macro<'a>(ps: &'a [(String, Tok)]) -> Option<FluentArgs<'a>> {
         4 => fluent_args![k(0) => v(0), k(1) => v(1), k(2) => v(2), k(3) => v(3),],
         5 => fluent_args![k(0) => v(0), k(1) => v(1), k(2) => v(2), k(3) => v(3), k(4) => v(4)],
         _ => return None,
-    })
+    };
+    // every expression evaluated exactly once: both iterators are exhausted and were never over-drawn
+    if ki.borrow_mut().next().is_some() || vi.borrow_mut().next().is_some() {
+        return None;
+    }
+    Some(a)
 }
 
 fn run(payload: &str) -> String {
